@@ -1318,8 +1318,11 @@ impl InterfaceInner {
                         // Save the number of bytes we will send now.
                         frag.sent_bytes = first_frag_ip_len;
 
-                        // Emit the IP header to the buffer.
-                        emit_ip(&ip_repr, &mut frag.buffer);
+                        // Emit the IP header and the whole payload to the buffer. Only hand out
+                        // the part of the buffer the packet occupies: upper layers checksum
+                        // everything they are given, and the rest of the buffer still holds
+                        // bytes of earlier packets.
+                        emit_ip(&ip_repr, &mut frag.buffer[..total_ip_len]);
 
                         let mut ipv4_packet = Ipv4Packet::new_unchecked(&mut frag.buffer[..]);
                         frag.ipv4.ident = ipv4_id;
